@@ -148,3 +148,42 @@ def rule_requested_order(ctx):
     r.floor(n, 40, "functions with a site-sequence parameter")
     r.need_controls(1)
     return r
+
+
+def rule_gauge_order_binding(ctx):
+    r = RuleResult(
+        "gauge-order-binding",
+        "a routine that combines per-index bond gauges in the order of a sequence parameter (a comprehension over the parameter "
+        "that reads `gauges`) and afterwards uses the same parameter to order a structural operation on the tensors (fuse, "
+        "transpose ...) must use one binding for both: rebinding the parameter in between makes the combined gauge and the "
+        "fused bond enumerate the indices in different orders",
+    )
+    n = 0
+    for f in ctx.prog.all_functions(nested=False):
+        if f.is_alias or isinstance(f.node, ast.Lambda) or not f.module.name.startswith("quimb.tensor") or "gauges" not in f.params:
+            continue
+        for p in f.params:
+            if p in ("gauges", "self"):
+                continue
+            gauge_iters = []
+            for x in _own_walk(f.node):
+                if isinstance(x, (ast.ListComp, ast.GeneratorExp, ast.DictComp)):
+                    if any(isinstance(g.iter, ast.Name) and g.iter.id == p for g in x.generators) and any(isinstance(y, ast.Name) and y.id == "gauges" for y in ast.walk(x)):
+                        gauge_iters.append(x)
+            if not gauge_iters:
+                continue
+            first = min(x.lineno for x in gauge_iters)
+            later_uses = [x for x in _own_walk(f.node) if isinstance(x, ast.Name) and x.id == p and isinstance(x.ctx, ast.Load) and x.lineno > max(getattr(g, "end_lineno", g.lineno) for g in gauge_iters)]
+            if not later_uses:
+                continue
+            n += 1
+            rebinds = [a for a in _own_walk(f.node) if isinstance(a, ast.Assign) and any(isinstance(t, ast.Name) and t.id == p for t0 in a.targets for t in ast.walk(t0)) and a.lineno > first]
+            construct = f"{f.qualname}[{p}]"
+            if rebinds:
+                r.bad(Finding("gauge-order-binding", f.qualname,
+                              f"`{p}` orders the combination of the gauges (line {first}) and is rebound at line {rebinds[0].lineno} (`{src_of(rebinds[0])[:60]}`) before it orders "
+                              "the operation on the tensors: the fused gauge no longer matches the fused bond", where=f"{f.module.relpath}:{rebinds[0].lineno}", operand=p))
+            else:
+                r.ok(construct, sample={"function": f.qualname, "ordering parameter": p, "gauge combination": f"line {first}", "later structural uses": len(later_uses)})
+    r.floor(n, 1, "gauge combinations ordered by a sequence parameter")
+    return r
